@@ -564,3 +564,387 @@ func detDescribe(p *Prog, fs []detFinding, cat string) (n int, text string) {
 	}
 	return n, strings.Join(parts, "; ")
 }
+
+// ------------------------------------------------ symbolic integer ranges --
+//
+// symRange: interval abstract interpretation of an SSA int value with bounds
+// that are affine in one symbol M (a struct field that is immutable after
+// construction, e.g. the Maglev table size): lo, hi = a*M + b.  Comparisons hold
+// "for every M >= MinM".  Sound (never narrower than the concrete set of values,
+// assuming a 64-bit int), deliberately small:
+//   const, load of the M field through the function's receiver, + - % *,
+//   conversions from unsigned types narrower than int, phi (one-step inductive
+//   invariant [base.lo, +inf)), and results of static calls with a body (join
+//   over the callee's returns; when the use is guarded by `err == nil` for the
+//   call's error result only the returns whose error may be nil are joined).
+// Everything else is top.
+
+type symBound struct {
+	Inf  bool
+	A, B int64 // A*M + B
+}
+
+type symRange struct{ Lo, Hi symBound }
+
+var symTop = symRange{symBound{Inf: true}, symBound{Inf: true}}
+
+func symConst(b int64) symBound { return symBound{B: b} }
+
+func (b symBound) String() string {
+	switch {
+	case b.Inf:
+		return "inf"
+	case b.A == 0:
+		return fmt.Sprintf("%d", b.B)
+	}
+	s := "m"
+	if b.A != 1 {
+		s = fmt.Sprintf("%d*m", b.A)
+	}
+	if b.B > 0 {
+		return fmt.Sprintf("%s+%d", s, b.B)
+	} else if b.B < 0 {
+		return fmt.Sprintf("%s%d", s, b.B)
+	}
+	return s
+}
+
+func (r symRange) String() string {
+	lo, hi := r.Lo.String(), r.Hi.String()
+	if r.Lo.Inf {
+		lo = "-inf"
+	}
+	if r.Hi.Inf {
+		hi = "+inf"
+	}
+	return "[" + lo + ", " + hi + "]"
+}
+
+type symEval struct {
+	M    *types.Var // the symbol
+	MinM int64      // comparisons hold for every M >= MinM
+	// per-evaluation state
+	assume map[*ssa.Phi]symRange
+	depth  int
+}
+
+// le: x <= y for every M >= MinM (finite bounds only).
+func (e *symEval) le(x, y symBound) bool {
+	if x.Inf || y.Inf {
+		return false
+	}
+	da, db := x.A-y.A, x.B-y.B
+	return da <= 0 && da*e.MinM+db <= 0
+}
+
+func (e *symEval) loGE(r symRange, b symBound) bool { return !r.Lo.Inf && e.le(b, r.Lo) }
+func (e *symEval) hiLE(r symRange, b symBound) bool { return !r.Hi.Inf && e.le(r.Hi, b) }
+
+func (e *symEval) within(r, outer symRange) bool {
+	return (outer.Lo.Inf || e.loGE(r, outer.Lo)) && (outer.Hi.Inf || e.hiLE(r, outer.Hi))
+}
+
+func (e *symEval) join(x, y symRange) symRange {
+	var out symRange
+	switch {
+	case x.Lo.Inf || y.Lo.Inf:
+		out.Lo = symBound{Inf: true}
+	case e.le(x.Lo, y.Lo):
+		out.Lo = x.Lo
+	case e.le(y.Lo, x.Lo):
+		out.Lo = y.Lo
+	default:
+		out.Lo = symBound{Inf: true}
+	}
+	switch {
+	case x.Hi.Inf || y.Hi.Inf:
+		out.Hi = symBound{Inf: true}
+	case e.le(x.Hi, y.Hi):
+		out.Hi = y.Hi
+	case e.le(y.Hi, x.Hi):
+		out.Hi = x.Hi
+	default:
+		out.Hi = symBound{Inf: true}
+	}
+	return out
+}
+
+func symAdd(x, y symBound) symBound {
+	if x.Inf || y.Inf {
+		return symBound{Inf: true}
+	}
+	return symBound{A: x.A + y.A, B: x.B + y.B}
+}
+
+func symNeg(x symBound) symBound {
+	if x.Inf {
+		return x
+	}
+	return symBound{A: -x.A, B: -x.B}
+}
+
+// errNilGuard: edge predicate "the error result of call is nil on this edge".
+func symErrNilGuard(call *ssa.Call, idx int) EdgePred {
+	isErr := func(v ssa.Value) bool {
+		ex, ok := v.(*ssa.Extract)
+		return ok && ex.Tuple == ssa.Value(call) && ex.Index == idx
+	}
+	return eqCond(true, isErr, isNilConst)
+}
+
+// Range evaluates v as used by instruction `at` (guards of `at` select the
+// successful returns of calls whose results flow into v).
+func (e *symEval) Range(v ssa.Value, at ssa.Instruction) symRange {
+	if e.assume == nil {
+		e.assume = map[*ssa.Phi]symRange{}
+	}
+	e.depth++
+	defer func() { e.depth-- }()
+	if e.depth > 40 {
+		return symTop
+	}
+	switch x := v.(type) {
+	case *ssa.Const:
+		if cv, ok := constOf(x); ok {
+			if s := cv.String(); len(s) < 18 {
+				var n int64
+				if _, err := fmt.Sscanf(s, "%d", &n); err == nil && fmt.Sprintf("%d", n) == s {
+					return symRange{symConst(n), symConst(n)}
+				}
+			}
+		}
+		return symTop
+	case *ssa.UnOp:
+		if x.Op == token.MUL {
+			if fa, ok := x.X.(*ssa.FieldAddr); ok && fieldVar(fa) == e.M {
+				fn := x.Parent()
+				if fn != nil && len(fn.Params) > 0 && fa.X == ssa.Value(fn.Params[0]) && fn.Signature.Recv() != nil {
+					return symRange{symBound{A: 1}, symBound{A: 1}}
+				}
+			}
+			return e.typeRange(x.Type())
+		}
+		if x.Op == token.SUB {
+			r := e.Range(x.X, x)
+			return symRange{symNeg(r.Hi), symNeg(r.Lo)}
+		}
+		return symTop
+	case *ssa.Convert:
+		from, _ := x.X.Type().Underlying().(*types.Basic)
+		to, _ := x.Type().Underlying().(*types.Basic)
+		if from == nil || to == nil || to.Info()&types.IsInteger == 0 || from.Info()&types.IsInteger == 0 {
+			return symTop
+		}
+		inner := e.Range(x.X, x)
+		if inner.Lo.Inf || inner.Hi.Inf {
+			if sr := e.typeRange(x.X.Type()); !sr.Lo.Inf {
+				inner = sr // narrow source type
+			}
+		}
+		if tr := e.typeRange(x.Type()); !tr.Lo.Inf {
+			// narrow target: value-preserving only when the source range fits
+			if e.within(inner, tr) {
+				return inner
+			}
+			return tr
+		}
+		// 64-bit target
+		srcUnsigned := from.Info()&types.IsUnsigned != 0
+		dstUnsigned := to.Info()&types.IsUnsigned != 0
+		switch {
+		case srcUnsigned && !dstUnsigned && inner.Hi.Inf:
+			return symTop // may wrap to a negative value
+		case !srcUnsigned && dstUnsigned && !e.loGE(inner, symConst(0)):
+			return symRange{symConst(0), symBound{Inf: true}}
+		}
+		return inner
+	case *ssa.BinOp:
+		switch x.Op {
+		case token.ADD:
+			a, b := e.Range(x.X, x), e.Range(x.Y, x)
+			return symRange{symAdd(a.Lo, b.Lo), symAdd(a.Hi, b.Hi)}
+		case token.SUB:
+			a, b := e.Range(x.X, x), e.Range(x.Y, x)
+			return symRange{symAdd(a.Lo, symNeg(b.Hi)), symAdd(a.Hi, symNeg(b.Lo))}
+		case token.MUL:
+			a, b := e.Range(x.X, x), e.Range(x.Y, x)
+			if e.loGE(a, symConst(0)) && e.loGE(b, symConst(0)) {
+				return symRange{symConst(0), symBound{Inf: true}}
+			}
+			return symTop
+		case token.REM:
+			a, k := e.Range(x.X, x), e.Range(x.Y, x)
+			if !e.loGE(k, symConst(1)) || k.Hi.Inf {
+				return symTop // divisor not provably positive and bounded
+			}
+			top := symAdd(k.Hi, symConst(-1))
+			if e.loGE(a, symConst(0)) {
+				return symRange{symConst(0), top}
+			}
+			return symRange{symNeg(top), top}
+		}
+		return symTop
+	case *ssa.Phi:
+		if r, ok := e.assume[x]; ok {
+			return r
+		}
+		// candidate invariant: [lo of the edges that do not depend on the phi, +inf)
+		e.assume[x] = symTop
+		base, first := symTop, true
+		for _, ed := range x.Edges {
+			if symDependsOn(ed, x) {
+				continue
+			}
+			r := e.Range(ed, x)
+			if first {
+				base, first = r, false
+			} else {
+				base = e.join(base, r)
+			}
+		}
+		delete(e.assume, x)
+		if first {
+			return symTop
+		}
+		dep := false
+		for _, ed := range x.Edges {
+			if symDependsOn(ed, x) {
+				dep = true
+			}
+		}
+		if !dep {
+			return base
+		}
+		cand := symRange{base.Lo, symBound{Inf: true}}
+		e.assume[x] = cand
+		ok := true
+		for _, ed := range x.Edges {
+			if !e.within(e.Range(ed, x), cand) {
+				ok = false
+			}
+		}
+		delete(e.assume, x)
+		if ok {
+			return cand
+		}
+		return symTop
+	case *ssa.Extract:
+		call, ok := x.Tuple.(*ssa.Call)
+		if !ok {
+			return symTop
+		}
+		return e.callResult(call, x.Index, at)
+	case *ssa.Call:
+		return e.callResult(x, 0, at)
+	}
+	return symTop
+}
+
+func symDependsOn(v ssa.Value, phi *ssa.Phi) bool {
+	seen := map[ssa.Value]bool{}
+	var walk func(v ssa.Value) bool
+	walk = func(v ssa.Value) bool {
+		if v == ssa.Value(phi) {
+			return true
+		}
+		if seen[v] {
+			return false
+		}
+		seen[v] = true
+		switch x := v.(type) {
+		case *ssa.BinOp:
+			return walk(x.X) || walk(x.Y)
+		case *ssa.UnOp:
+			return walk(x.X)
+		case *ssa.Convert:
+			return walk(x.X)
+		case *ssa.Phi:
+			for _, ed := range x.Edges {
+				if walk(ed) {
+					return true
+				}
+			}
+		}
+		return false
+	}
+	return walk(v)
+}
+
+// typeRange: the value range of a narrow integer type (64-bit int assumed).
+func (e *symEval) typeRange(t types.Type) symRange {
+	b, _ := t.Underlying().(*types.Basic)
+	if b == nil {
+		return symTop
+	}
+	switch b.Kind() {
+	case types.Uint8:
+		return symRange{symConst(0), symConst(1<<8 - 1)}
+	case types.Uint16:
+		return symRange{symConst(0), symConst(1<<16 - 1)}
+	case types.Uint32:
+		return symRange{symConst(0), symConst(1<<32 - 1)}
+	case types.Int8:
+		return symRange{symConst(-1 << 7), symConst(1<<7 - 1)}
+	case types.Int16:
+		return symRange{symConst(-1 << 15), symConst(1<<15 - 1)}
+	case types.Int32:
+		return symRange{symConst(-1 << 31), symConst(1<<31 - 1)}
+	}
+	return symTop
+}
+
+func (e *symEval) callResult(call *ssa.Call, idx int, at ssa.Instruction) symRange {
+	g := calleeFn(call.Common())
+	if g == nil || len(g.Blocks) == 0 {
+		return symTop
+	}
+	res := g.Signature.Results()
+	if idx >= res.Len() {
+		return symTop
+	}
+	// a callee that is a method may read M through its receiver: only the same receiver is the same M
+	if g.Signature.Recv() != nil {
+		caller := call.Parent()
+		if caller == nil || len(caller.Params) == 0 || len(call.Call.Args) == 0 || call.Call.Args[0] != ssa.Value(caller.Params[0]) {
+			sub := &symEval{M: nil, MinM: e.MinM, depth: e.depth}
+			return sub.callResultOf(g, call, idx, at)
+		}
+	}
+	return e.callResultOf(g, call, idx, at)
+}
+
+func (e *symEval) callResultOf(g *ssa.Function, call *ssa.Call, idx int, at ssa.Instruction) symRange {
+	res := g.Signature.Results()
+	errIdx := -1
+	if last := res.Len() - 1; last >= 0 && last != idx && qualTypeName(res.At(last).Type()) == "error" {
+		errIdx = last
+	}
+	onlySuccess := errIdx >= 0 && at != nil && at.Parent() == call.Parent() && guardedCut(at, symErrNilGuard(call, errIdx))
+	out, first := symTop, true
+	for _, r := range returnsOf(g) {
+		if g.Recover != nil && r.Block() == g.Recover {
+			continue
+		}
+		if len(r.Results) != res.Len() {
+			return symTop
+		}
+		if onlySuccess {
+			ev := r.Results[errIdx]
+			if !isNilConst(ev) && guardedCut(r, eqCond(false, func(v ssa.Value) bool { return v == ev }, isNilConst)) {
+				continue // this return always carries a non-nil error
+			}
+		}
+		rv := r.Results[idx]
+		// results of functions with defers go through result allocs: not modelled
+		rr := e.Range(rv, r)
+		if first {
+			out, first = rr, false
+		} else {
+			out = e.join(out, rr)
+		}
+	}
+	if first {
+		return symTop
+	}
+	return out
+}
